@@ -2,6 +2,7 @@
 C13 — Create, Subscribe and SubscribeOrCreate honour their contract (decision logic stated outright).
 -/
 import Orda.Proofs.ServerContract
+import Orda.Proofs.DispatchBridge
 namespace Orda.Props.C13
 open Orda
 
@@ -49,5 +50,16 @@ theorem subscriber_gets_log (st : Store) (cl : ClientDoc) (col : CollectionDoc) 
     r.resp.ops = (st.getOperations d.duid (p.cp.sseq + 1)).map (·.op) ∧ r.pushed = 0 ∧
     r.store.operations = st.operations :=
   subscribe_gets_log st cl col p d hc hs hro hsn hvol hk ht hv hn hb
+
+/-- REGENERATED TIE: on every store and every request, the dispatch decision the model takes (create /
+    subscribe / serve / refuse with which code) is the decision computed by the decision paths that
+    tools/gofacts extracts from `processSubscribeOrCreate` of the CURRENT source (`Gen.dispatchPaths`) -/
+theorem server_dispatch_is_current_source (st : Store) (cl : ClientDoc) (col : CollectionDoc) (p : Pack) :
+    DB.sourceDecision (evalCase st col cl.cuid p).1 p.create p.subscribe (SL.sameDuid p (evalCase st col cl.cuid p).2)
+      (evalCase st col cl.cuid p).2.isNone = some (SL.dsp st cl col p) :=
+  DB.model_dispatch_is_source st cl col p
+
+/-- … and the two read-only refusals of `processPack` are the paths of `validatePushPullPack` -/
+theorem server_validation_is_current_source : DB.validateAgree = true := DB.validate_is_source
 
 end Orda.Props.C13
